@@ -753,7 +753,7 @@ func (a *afCtx) sequence() {
 	for k := range a.guard {
 		gkeys = append(gkeys, k)
 	}
-	sort.Slice(gkeys, func(i, j int) bool { return gkeys[i].call.Pos() < gkeys[j].call.Pos() })
+	sort.Slice(gkeys, func(i, j int) bool { return ir.PosLess(gkeys[i].call.Pos(), gkeys[j].call.Pos()) })
 	for _, k := range gkeys {
 		g := a.guard[k]
 		at, pos := k.fr.fn, P.InstrPos(k.call)
